@@ -154,6 +154,38 @@ def gen_nogc_consts():
     fin_ret = body.rfind("OpCode::Return,")
     if min(last_exit, first_enter, val, fin_ret) < 0 or not (first_enter < val < last_exit < fin_ret):
         raise ExtractError("compile_typed_body: Enter / value / Exit / Return order changed")
+    # every path to a collection: call sites of VM::collect (self.collect() / vm.collect() / VM::collect(..)) and of Heap::sweep in
+    # every crate (tests, target and the verif hook files excluded).  Guarded = the call in maybe_collect after its no-gc guard, or
+    # the sweep inside VM::collect itself; any other site collects without looking at no_gc_depth
+    import os
+    paths_found = []
+    for top in sorted(os.listdir(extract.REPO)):
+        srcdir = os.path.join(extract.REPO, top, "src")
+        if not os.path.isdir(srcdir):
+            continue
+        for dp, _, fs in os.walk(srcdir):
+            for f in sorted(fs):
+                rel = os.path.relpath(os.path.join(dp, f), extract.REPO)
+                if not (f.endswith(".rs") or f.endswith(".inc")) or "/tests/" in rel or f in ("verif.rs", "verif_sites.rs") or "/verif/" in rel:
+                    continue
+                t = strip_comments(open(os.path.join(dp, f), encoding="utf-8", errors="replace").read())
+                for m in re.finditer(r"\b(?:self|\w*vm\w*)(?:\s*\.\s*\w+)*?\s*\.\s*collect\s*\(\s*\)|\bVM::collect\s*\(|\.\s*sweep\s*\(", t):
+                    call = re.sub(r"\s+", "", m.group(0))
+                    if call.endswith(".collect()") and not re.match(r"(?:self|\w*vm\w*)\.collect\(\)$|self\.vm\.collect\(\)$", call, flags=re.I):
+                        continue        # iterator collect on a field
+                    fns = list(re.finditer(r"\bfn\s+(\w+)", t[:m.start()]))
+                    where = fns[-1].group(1) if fns else "?"
+                    guarded = False
+                    if rel == "runtime/src/vm/gc.rs" and where == "maybe_collect" and call == "self.collect()":
+                        body_before = " ".join(re.sub(r"#\[cfg\(vbxq_aelys_lang_verif\)\]", "", t[fns[-1].start():m.start()]).split())
+                        guarded = re.search(rf"if (?:self\.is_in_no_gc\(\)|{POS})\s*\{{\s*return;\s*\}}", body_before) is not None
+                    if rel == "runtime/src/vm/gc.rs" and where == "collect" and call.endswith("sweep("):
+                        guarded = True
+                    if rel.startswith("bytecode/src/heap/") and call.endswith("sweep("):
+                        continue    # the heap's own definition / internal use
+                    paths_found.append((rel, where, call, guarded))
+    if not any(g for _, _, _, g in paths_found):
+        raise ExtractError("no guarded collection path found: maybe_collect / VM::collect changed shape")
     out = [HEADER.format(src=f"{src_max}, bytecode/src/bytecode/opcode.rs, runtime/src/vm/dispatch/ops/memory.inc, runtime/src/vm/gc.rs, "
                              "backend/src/compiler/stmt/control_flow.rs, backend/src/compiler/functions/typed_body.rs"),
            "From Coq Require Import NArith.\n",
@@ -166,5 +198,10 @@ def gen_nogc_consts():
            "(* run_fast puts no_gc_depth back to its value at entry when a run fails (behavioural probe) *)\n",
            f"Definition error_restores_depth : bool := {flags['error_restores_depth']}.\n",
            "(* the inliner never inlines a function carrying @no_gc (behavioural probe at -O2) *)\n",
-           f"Definition inliner_skips_no_gc : bool := {flags['inliner_skips_no_gc']}.\n"]
+           f"Definition inliner_skips_no_gc : bool := {flags['inliner_skips_no_gc']}.\n",
+           "From Coq Require Import String List.\nImport ListNotations.\n",
+           "(* every call site of VM::collect / Heap::sweep in the sources (all crates): (file, enclosing fn, call, guarded).  guarded = the call\n"
+           "   in maybe_collect after its no-gc guard, or the sweep inside VM::collect itself *)\n",
+           "Definition collect_paths : list (string * string * string * bool) :=\n  [" +
+           "; ".join('("%s"%%string, "%s"%%string, "%s"%%string, %s)' % (a, b, c, "true" if g else "false") for a, b, c, g in paths_found) + "].\n"]
     return write_if_changed("NoGcConsts.v", "".join(out))
